@@ -9,6 +9,7 @@
  *             K<val> coap_update_token, D<val> coap_add_data
  *     <val>/<wire> = hex, `-` (empty) or `*<len>*<seed>` (byte i = (seed + 7 i + 13 (i / 256)) mod 256)
  *   dupb / dupe: see the comment above dup_and_finish() below
+ *   wsw <c|s> <items>                                      (C01) coap_ws_write / coap_ws_close: see the comment above do_wsw()
  *   output: [edit: start=<used_size>.<fnv32(buffer)>] steps=<rc>.<used_size>.<fnv32(buffer)>,… hdr=<n> bytes=<D> built=<accessor dump> reparse=<dump|rej>
  *           (byte strings longer than 48 bytes as #<len>.<fnv32>.<first 8>..<last 8>)
  */
@@ -485,6 +486,178 @@ static void do_optit(char **w) {
   free(b);
 }
 
+/* ---- wsw (C01): the WebSocket WRITE side.  The REAL coap_ws_write() / coap_ws_close() on a WS session whose role
+ * (ws->state) is set to client or server, with a scripted PRNG (coap_set_prng: the masking key) and a capturing
+ * lower layer (lfunc[COAP_LAYER_WS].l_write) that accepts the bytes in scripted partial writes.
+ *
+ *   wsw <c|s> <item>;<item>;…      item = W<key8hex>:<val>:<accs>    the caller's loop: coap_ws_write(session, val + ofs, len - ofs),
+ *                                                                    ofs += ret, until everything is taken (or ret < 0, or 64 calls)
+ *                                         C<key8hex>:<reason>:<accs> ws->close_reason = reason; coap_ws_close(session)
+ *                                  accs = `,`-separated, one per l_write call, then `a`:
+ *                                         a (the lower layer takes everything) | <k> (takes at most k bytes) | -1 (error)
+ *   output: up0=<ret of a write before the layer is up> rets=<ret>/<offered>/<accepted>[+<ret>/…],… wire=<digest of all accepted bytes>
+ *           (offered/accepted = `-` when l_write was not called)
+ */
+#include <sys/socket.h>
+#include <netinet/in.h>
+#include <fcntl.h>
+static coap_session_t *g_ws_sess;
+static uint8_t g_ws_key[4]; static int g_ws_key_set;
+static long g_ws_acc; static int g_ws_acc_all;
+static const char *g_ws_accs;      /* the rest of the item's acceptance script */
+static void wsw_next_acc(void) {
+  if (!g_ws_accs || !*g_ws_accs || *g_ws_accs == 'a') { g_ws_acc_all = 1; g_ws_acc = 0; g_ws_accs = NULL; return; }
+  char *e; g_ws_acc = strtol(g_ws_accs, &e, 10); g_ws_acc_all = 0;
+  g_ws_accs = *e == ',' ? e + 1 : NULL;
+}
+static uint8_t *g_ws_wire; static size_t g_ws_wire_len, g_ws_wire_cap;
+static long g_ws_offered, g_ws_accepted;
+
+static int wsw_rng(void *buf, size_t len) {
+  uint8_t *d = (uint8_t *)buf;
+  for (size_t i = 0; i < len; i++) d[i] = g_ws_key_set ? g_ws_key[i % 4] : (uint8_t)rand();
+  return 1;
+}
+static ssize_t wsw_write(coap_session_t *session, const uint8_t *data, size_t datalen) {
+  size_t n;
+  (void)session;
+  g_ws_offered = (long)datalen;
+  if (!g_ws_acc_all && g_ws_acc < 0) { g_ws_accepted = -1; errno = ECONNRESET; return -1; }
+  n = g_ws_acc_all || (size_t)g_ws_acc > datalen ? datalen : (size_t)g_ws_acc;
+  if (g_ws_wire_len + n + 1 > g_ws_wire_cap) {
+    g_ws_wire_cap = (g_ws_wire_len + n + 1) * 2;
+    g_ws_wire = (uint8_t *)realloc(g_ws_wire, g_ws_wire_cap);
+  }
+  if (n) memcpy(g_ws_wire + g_ws_wire_len, data, n);
+  g_ws_wire_len += n;
+  g_ws_accepted = (long)n;
+  return (ssize_t)n;
+}
+static void wsw_noclose(coap_session_t *session) { (void)session; }
+
+static coap_session_t *wsw_session(void) {
+  if (!g_ws_sess) {
+    struct sockaddr_in sa; socklen_t sl = sizeof sa;
+    coap_address_t dst;
+    int lfd = socket(AF_INET, SOCK_STREAM, 0);       /* a listener, so that the connect() is not refused; nothing is sent */
+    if (!dup_session()) return NULL;                 /* creates g_ctx */
+    memset(&sa, 0, sizeof sa);
+    sa.sin_family = AF_INET; sa.sin_addr.s_addr = htonl(INADDR_LOOPBACK); sa.sin_port = 0;
+    bind(lfd, (struct sockaddr *)&sa, sizeof sa);
+    listen(lfd, 4);
+    getsockname(lfd, (struct sockaddr *)&sa, &sl);
+    coap_address_init(&dst);
+    dst.size = sizeof(struct sockaddr_in);
+    memcpy(&dst.addr.sin, &sa, sizeof sa);
+    g_ws_sess = coap_new_client_session(g_ctx, NULL, &dst, COAP_PROTO_WS);
+    if (!g_ws_sess) return NULL;
+    coap_set_prng(wsw_rng);
+  }
+  return g_ws_sess;
+}
+
+static int wsw_item_ok(const char *it) {
+  /* [WC]<8 hex>:<val|reason>:<a|int> */
+  if (it[0] != 'W' && it[0] != 'C') return 0;
+  for (int i = 1; i <= 8; i++) if (h_hexval(it[i]) < 0) return 0;
+  if (it[9] != ':') return 0;
+  const char *c2 = strchr(it + 10, ':');
+  if (!c2 || strchr(c2 + 1, ':')) return 0;
+  for (const char *p = c2 + 1;;) {
+    if (*p == 'a') { if (p[1]) return 0; break; }
+    char *e; long v = strtol(p, &e, 10);
+    if (e == p || v < -1) return 0;
+    if (!*e) break;
+    if (*e != ',') return 0;
+    p = e + 1;
+  }
+  if (it[0] == 'C') {
+    char *e; unsigned long v = strtoul(it + 10, &e, 10);
+    if (e != c2 || e == it + 10 || v > 65535) return 0;
+  }
+  return 1;
+}
+
+static void do_wsw(char **w) {
+  coap_session_t *s;
+  int role_client;
+  ssize_t up0;
+  char *items = w[2];
+  if (strcmp(w[1], "c") && strcmp(w[1], "s")) { printf("bad-op"); return; }
+  role_client = w[1][0] == 'c';
+  /* validate the whole line first */
+  {
+    char *copy = strdup(items), *save = NULL; int ok = 1;
+    for (char *it = strtok_r(copy, ";", &save); it; it = strtok_r(NULL, ";", &save)) {
+      if (!wsw_item_ok(it)) { ok = 0; break; }
+      if (it[0] == 'W') {
+        char *c2 = strchr(it + 10, ':'); size_t len; *c2 = 0;
+        uint8_t *v = get_val(strcmp(it + 10, "-") ? it + 10 : "", &len);
+        if (!v) { ok = 0; break; }
+        free(v);
+      }
+    }
+    free(copy);
+    if (!ok) { printf("bad-op"); return; }
+  }
+  s = wsw_session();
+  if (!s) { printf("fail no-session"); return; }
+  OUT = stdout;
+  coap_lock_lock(g_ctx, return);
+  s->sock.lfunc[COAP_LAYER_WS].l_write = wsw_write;
+  s->state = COAP_SESSION_STATE_ESTABLISHED;
+  g_ws_wire_len = 0; g_ws_key_set = 0;
+  if (s->ws) memset(s->ws, 0, sizeof(*s->ws));
+  g_ws_acc_all = 1; g_ws_offered = -1;
+  { static const uint8_t one = 1; up0 = coap_ws_write(s, &one, 1); }      /* allocates session->ws; layer not up: 0 */
+  if (!s->ws) { coap_lock_unlock(g_ctx); printf("fail no-ws-state"); return; }
+  printf("up0=%zd%s rets=", up0, g_ws_offered >= 0 ? "!written" : "");
+  s->ws->state = role_client ? COAP_SESSION_TYPE_CLIENT : COAP_SESSION_TYPE_SERVER;
+  s->ws->up = 1;
+  {
+    char *save = NULL; int first = 1;
+    for (char *it = strtok_r(items, ";", &save); it; it = strtok_r(NULL, ";", &save)) {
+      char *c2 = strchr(it + 10, ':');
+      *c2 = 0;
+      for (int i = 0; i < 4; i++) g_ws_key[i] = (uint8_t)(h_hexval(it[1 + 2 * i]) * 16 + h_hexval(it[2 + 2 * i]));
+      g_ws_key_set = 1;
+      g_ws_accs = c2 + 1;
+      g_ws_offered = -1; g_ws_accepted = -1;
+      if (!first) fputc(',', stdout);
+      first = 0;
+      if (it[0] == 'W') {
+        size_t len, ofs = 0; uint8_t *v = get_val(strcmp(it + 10, "-") ? it + 10 : "", &len);
+        for (int calls = 0; calls < 64; calls++) {
+          ssize_t r;
+          wsw_next_acc();
+          g_ws_offered = -1; g_ws_accepted = -1;
+          r = coap_ws_write(s, v + ofs, len - ofs);
+          printf("%s%zd", calls ? "+" : "", r);
+          if (g_ws_offered < 0) printf("/-/-"); else printf("/%ld/%ld", g_ws_offered, g_ws_accepted);
+          if (r < 0 || g_ws_offered < 0) break;     /* error / the layer is not up or closing: the caller gives up */
+          ofs += (size_t)r;
+          if (ofs >= len) break;
+        }
+        free(v);
+      } else {
+        wsw_next_acc();
+        void (*saved)(coap_session_t *) = s->sock.lfunc[COAP_LAYER_WS].l_close;
+        s->ws->close_reason = (uint16_t)strtoul(it + 10, NULL, 10);
+        s->ws->recv_close = 1;                 /* no draining of the socket (not part of the write side) */
+        s->sock.lfunc[COAP_LAYER_WS].l_close = wsw_noclose;
+        coap_ws_close(s);
+        s->sock.lfunc[COAP_LAYER_WS].l_close = saved;
+        printf("c");
+        if (g_ws_offered < 0) printf("/-/-"); else printf("/%ld/%ld", g_ws_offered, g_ws_accepted);
+      }
+    }
+  }
+  g_ws_key_set = 0;
+  coap_lock_unlock(g_ctx);
+  printf(" wire=");
+  put_dg(g_ws_wire, g_ws_wire_len);
+}
+
 static void step(char *line) {
   char *w[14];
   int n = h_words(line, w, 14);
@@ -501,6 +674,7 @@ static void step(char *line) {
   if (n == 5 && !strcmp(w[0], "edit")) { do_edit(w); return; }
   if (n == 12 && !strcmp(w[0], "dupb")) { do_dupb(w); return; }
   if (n == 10 && !strcmp(w[0], "dupe")) { do_dupe(w); return; }
+  if (n == 3 && !strcmp(w[0], "wsw")) { do_wsw(w); return; }
   printf("bad-op");
 }
 
